@@ -16,6 +16,7 @@
   single-element operation that raises leaves elements and sets untouched (`c01_atomic_single`).
 -/
 import Basyx.Lemmas.NsRename
+import Basyx.Lemmas.NsDelItem
 namespace Basyx.Ns
 
 theorem c01_inv_init : Inv init := by
@@ -329,5 +330,31 @@ example :
     let s := run init [.mk .ref none (some 1) 0 0, .mk .ref none (some 1) 0 0,
                        .construct .sml (some "l") [[], [], [0, 1]] ⟨0, none, some 0⟩]
     (step s (.setSem 0 (some 2))).2 = .raise (.aascv 114) ∧ (step s (.setSem 0 (some 2))).1.sets ≠ s.sets := by decide
+
+/-- **Deletion by position behaves like a list** (after fix 3c1b869; before it `del set[-1]` removed nothing and an index out
+    of range was a silent no-op): for an ordered set holding `o`, `del set[i]` raises IndexError exactly when `i` is outside
+    `-len .. len-1` - and then changes nothing -, and otherwise removes the one child at the normalised position: that child
+    leaves the backend, and the positional view becomes `o` without position `j`. -/
+theorem c01_delitem_like_a_list (s : St) (g : Nat) (i : Int) (S : NSet) (o : List Nat)
+    (hS : s.sets[g]? = some S) (ho : S.order = some o) :
+    (normIdx i o.length = none → setDelItem s g i = (s, .raise .indexError)) ∧
+    (∀ j (hj : normIdx i o.length = some j),
+      (∀ s1, removeAll s g [o[j]'(normIdx_lt hj)] = (s1, .ok) →
+        setDelItem s g i = (setOrder s1 g (fun _ => o.eraseIdx j), .ok)) ∧
+      (∀ r, removeAll s g [o[j]'(normIdx_lt hj)] = r → r.2 ≠ .ok → setDelItem s g i = r)) := by
+  constructor
+  · intro hn
+    simp [setDelItem, hS, ho, hn]
+  · intro j hj
+    have hlt := normIdx_lt hj
+    constructor
+    · intro s1 h1
+      simp only [setDelItem, hS, ho, hj, setDelSlice, sliceGet_one o j hlt, sliceDel_one o j hlt, h1]
+    · intro r hr hne
+      simp only [setDelItem, hS, ho, hj, setDelSlice, sliceGet_one o j hlt, sliceDel_one o j hlt, hr]
+      obtain ⟨r1, r2⟩ := r
+      cases r2 <;> simp_all
+
+example : normIdx (-1) 3 = some 2 ∧ normIdx 3 3 = none ∧ normIdx (-4) 3 = none := by decide
 
 end Basyx.Ns
